@@ -910,3 +910,101 @@ Definition lcreated : lsys :=
   {| z_b := Some None;
      z_c := {| lc_v := Some {| ls_scope := None; ls_fin := false |}; lc_pstart := ∅; lc_pstop := ∅; lc_pdestroy := ∅ |};
      z_next := 0; z_up := []; z_down := [] |}.
+
+(* ---------------------------------------------------------------- one service of this client *)
+(* the slice of [recv] for service cookie sc: `services` membership, pending destroy_service
+   requests, abort handles; the broker side is the DestroyService / CallFunction arms of
+   Model.handle for a service whose object this client owns.  Call serials are chosen by the
+   broker; [w_bnext] makes them distinct (SerialMap of the broker: no reuse below 2^32 calls). *)
+Record wcore := {
+  wc_in : bool;               (* services.contains_key(sc) *)
+  wc_pdestroy : gset N;       (* destroy_service: serial -> this cookie *)
+  wc_aborts : gset N }.       (* abort_call_handles *)
+
+Record wsys := {
+  w_b : bool;                 (* broker: the service exists *)
+  w_c : wcore;
+  w_next : N;
+  w_bnext : N;
+  w_up : list msg;
+  w_down : list msg }.
+
+#[export] Instance eta_wcore : Settable _ := settable! Build_wcore <wc_in; wc_pdestroy; wc_aborts>.
+#[export] Instance eta_wsys : Settable _ := settable! Build_wsys <w_b; w_c; w_next; w_bnext; w_up; w_down>.
+
+Inductive wcres := WcOk (z : wcore) | WcRej | WcPan (site : N).
+Inductive wres := WOk (z : wsys) | WRej | WPan (site : N) | WDisabled.
+
+Definition wrecv (alive : bool) (z : wcore) (m : msg) : wcres :=
+  match m with
+  | DestroyServiceReply s r =>
+      if negb (bool_decide (s ∈ wc_pdestroy z)) then WcOk z else   (* `let Some(req) = .. else return` *)
+      let z1 := z <| wc_pdestroy ::= fun x => x ∖ {[s]} |> in
+      match r with
+      | R3Ok => if wc_in z then WcOk (z1 <| wc_in := false |>) else WcPan S_DESTROY_SERVICE_ABSENT
+      | R3Invalid => WcOk z1
+      | R3Foreign => WcPan S_DESTROY_SERVICE_FOREIGN
+      end
+  | CallFunction b _ _ _ | CallFunction2 b _ _ _ _ =>
+      if negb (wc_in z) then WcPan S_CALL_NO_SERVICE else
+      if alive then
+        if bool_decide (b ∈ wc_aborts z) then WcPan S_CALL_DUP_ABORT
+        else WcOk (z <| wc_aborts ::= fun x => {[b]} ∪ x |>)
+      else WcOk z
+  | AbortFunctionCall b => WcOk (z <| wc_aborts ::= fun x => x ∖ {[b]} |>)
+  | _ => WcRej
+  end.
+
+Inductive wop :=
+| WoDestroy                       (* Service::destroy() or drop of the Service: any number of times *)
+| WoBroker                        (* the broker handles the next DestroyService *)
+| WoCall (f : N) (v : payload)    (* some caller's call reaches the broker while the service exists *)
+| WoAbort (b : N)                 (* the broker tells the callee that a call was aborted *)
+| WoObjectGone                    (* the owner destroyed the object: the broker drops the service silently *)
+| WoFinish (b : N)                (* the client answered call b (req_call_function_reply removes the abort handle) *)
+| WoRecv (alive : bool).
+
+Definition wstep (sc : uuid) (z : wsys) (o : wop) : wres :=
+  match o with
+  | WoDestroy =>
+      WOk (z <| w_c; wc_pdestroy ::= fun x => {[w_next z]} ∪ x |> <| w_next ::= N.succ |>
+             <| w_up ::= fun l => l ++ [DestroyService (w_next z) sc] |>)
+  | WoBroker =>
+      match w_up z with
+      | DestroyService s _ :: u =>
+          WOk (z <| w_up := u |> <| w_b := false |>
+                 <| w_down ::= fun l => l ++ [DestroyServiceReply s (if w_b z then R3Ok else R3Invalid)] |>)
+      | _ :: u => WOk (z <| w_up := u |>)
+      | [] => WDisabled
+      end
+  | WoCall f v =>
+      if w_b z then WOk (z <| w_bnext ::= N.succ |> <| w_down ::= fun l => l ++ [CallFunction2 (w_bnext z) sc f None v] |>)
+      else WDisabled
+  | WoAbort b => WOk (z <| w_down ::= fun l => l ++ [AbortFunctionCall b] |>)
+  | WoObjectGone => WOk (z <| w_b := false |>)
+  | WoFinish b => WOk (z <| w_c; wc_aborts ::= fun x => x ∖ {[b]} |>)
+  | WoRecv alive =>
+      match w_down z with
+      | m :: d => match wrecv alive (w_c z) m with
+                  | WcOk c' => WOk (z <| w_down := d |> <| w_c := c' |>)
+                  | WcRej => WRej
+                  | WcPan site => WPan site
+                  end
+      | [] => WDisabled
+      end
+  end.
+
+Fixpoint wrun (sc : uuid) (z : wsys) (l : list wop) : wres :=
+  match l with
+  | [] => WOk z
+  | o :: r => match wstep sc z o with
+              | WOk z' => wrun sc z' r
+              | WDisabled => wrun sc z r
+              | bad => bad
+              end
+  end.
+
+(* right after the client handled CreateServiceReply(Ok sc) *)
+Definition wcreated : wsys :=
+  {| w_b := true; w_c := {| wc_in := true; wc_pdestroy := ∅; wc_aborts := ∅ |}; w_next := 0; w_bnext := 0;
+     w_up := []; w_down := [] |}.
